@@ -297,9 +297,10 @@ func (w *world) deletePod(p *podT, why string, cniDel bool) {
 // ---------------------------------------------------------------- director: generates the history
 
 type director struct {
-	w      *world
-	sa     *sched.Actor
-	events int
+	w         *world
+	sa        *sched.Actor
+	events    int
+	lingering []*podT // pods whose node was deleted but whose API objects still exist
 }
 
 func (d *director) run(ctx context.Context) {
@@ -309,11 +310,17 @@ func (d *director) run(ctx context.Context) {
 		w.startNode(n)
 	}
 	w.reassess()
-	r.ProbeDecl("ev_create", "ev_delete", "ev_reschedule", "ev_recreate_same_node", "ev_sandbox_restart", "ev_node_delete", "ev_node_recreate", "ev_finish")
+	r.ProbeDecl("ev_create", "ev_delete", "ev_reschedule", "ev_recreate_same_node", "ev_sandbox_restart", "ev_node_delete", "ev_node_recreate", "ev_finish", "pod_lingers_after_node_delete")
 	weights := []int{30, 22, 8, 8, 8, src.Intn(6, "w_node_delete"), 4, 5, 30}
 	for i := 0; i < d.events; i++ {
 		if w.s.Park(ctx, "event", "", false) != sched.None {
 			continue
+		}
+		if len(d.lingering) > 0 && src.Chance(300, "pod_gc_runs") {
+			first := d.lingering[0]
+			d.podGC(func(p *podT) bool { return p == first })
+			w.reassess()
+			w.inf.wk.wake()
 		}
 		switch src.Weighted(weights, "event") {
 		case 0: // create a pod
@@ -382,9 +389,18 @@ func (d *director) run(ctx context.Context) {
 			n.alive = false
 			n.goneAt = w.now()
 			n.kl.q = nil // the machine is gone: queued runtime work is lost
+			// Usually the pods vanish with the node; sometimes their API objects linger (still bound to the node,
+			// still reporting their addresses) until the pod garbage collector gets to them.  While a pod object
+			// exists it justifies its allocation.
+			linger := src.Chance(400, "node_delete_pods_linger")
 			for _, name := range w.podNames {
 				if p := w.pods[name]; p != nil && p.alive && p.node == n {
-					w.deletePod(p, "node deleted", false)
+					if linger {
+						r.Probe("pod_lingers_after_node_delete")
+						d.lingering = append(d.lingering, p)
+					} else {
+						w.deletePod(p, "node deleted", false)
+					}
 				}
 			}
 			if err := w.cs.Tracker().Delete(nodeGVR, "", n.kname); err != nil {
@@ -405,6 +421,7 @@ func (d *director) run(ctx context.Context) {
 			}
 			r.Op("director: node %s (%s) re-created", n.name, n.kname)
 			r.Probe("ev_node_recreate")
+			d.podGC(func(p *podT) bool { return p.node == n }) // a new machine under the old name: the old pods are gone
 			w.startNode(n)
 		case 7: // the pod runs to completion: the sandbox is torn down, the object stays (phase Succeeded)
 			p := d.livePod()
@@ -430,6 +447,27 @@ func (d *director) run(ctx context.Context) {
 		w.reassess()
 		w.inf.wk.wake()
 	}
+	if len(d.lingering) > 0 {
+		d.podGC(func(*podT) bool { return true })
+		w.reassess()
+		w.inf.wk.wake()
+	}
+}
+
+// podGC deletes the lingering pod objects of deleted nodes that match (no CNI DEL: the machine is gone).
+func (d *director) podGC(match func(*podT) bool) {
+	var rest []*podT
+	for _, p := range d.lingering {
+		if !match(p) {
+			rest = append(rest, p)
+			continue
+		}
+		if p.alive {
+			d.w.r.Op("pod GC: delete pod %s (uid %s) of deleted node %s", p.name, p.uid, p.node.name)
+			d.w.deletePod(p, "pod GC after node deletion", false)
+		}
+	}
+	d.lingering = rest
 }
 
 func (d *director) wait(ctx context.Context) {
